@@ -106,3 +106,72 @@ def default_host_for(v):
     the main 3.12 host, except for 3.12 files (native fast path there), which
     additionally go through load_code directly inside the agent."""
     return K.MAIN_HOST
+
+
+def corpus_invariants(result, scratch, props, tier):
+    """Reference-free invariants over the whole historical corpus (all versions, incl. those without an installed
+    interpreter) - the weaker coverage bucket of DESIGN.md s3.  For C05, pre-3.6 co_lnotab tables are additionally judged by
+    the 2.7 interpreter (format-equivalent reference)."""
+    items = []
+    for p in K.corpus_files():
+        vtag = os.path.basename(os.path.dirname(p)).replace("bytecode_", "")
+        if "dropbox" in vtag:
+            continue
+        items.append({"pyc": p, "label": "corpus/" + vtag + "/" + os.path.basename(p), "vtag": vtag})
+    chunks = list(K.chunks(items, 20))
+
+    def job(ci):
+        i, ch = ci
+        return K.run_agent(K.MAIN_HOST, "corpusinv", {"files": ch, "props": props}, scratch.root, "cinv%d" % i, timeout=1800)
+
+    tables = []
+    for out, err, so, se in K.pmap(job, list(enumerate(chunks))):
+        if out is None:
+            result.inconclusive.append("corpus invariants: %s" % err)
+            continue
+        tables += out.pop("lnotabs", [])
+        ev = out.get("evaluations", 0)
+        result.merge_agent(out)
+        result.count("corpus_invariant_evaluations", ev)
+    result.count("corpus_files", len(items))
+    if "C05" in props and tables and (2, 7) in K.available_interps():
+        tf, err = K.run_truth((2, 7), "linetab", {"items": [{"code_len": t["code_len"], "firstlineno": t["firstlineno"], "table": t["table"]}
+                                                           for t in tables]}, scratch.root, "corpus-lnotab", timeout=1200)
+        if tf is None:
+            result.inconclusive.append("2.7 lnotab reference: %s" % err)
+        else:
+            for t, r in zip(tables, K.read_jsonl(tf)):
+                if not r.get("ok"):
+                    result.count("c05_lnotab_reference_rejected")
+                    continue
+                result.evaluations += 1
+                result.count("c05_format_equivalent_lnotab_checks")
+                if [list(x) for x in r["linestarts"]] != t["xdis"]:
+                    result.mismatches.append({"key": "C05|corpus|lnotab-vs-2.7-reader|v%s" % t["vtag"],
+                                              "detail": {"file": t["label"], "path": t["path"], "expected": r["linestarts"][:10],
+                                                         "observed": t["xdis"][:10]}})
+
+
+def synthetic_code_batches(scratch, versions, n_per_version, rng_tag):
+    """Workload B: batches whose files are built by V itself (truth.py mkcode) from synthetic co_code bytes."""
+    import binascii
+
+    from .gen import codebytes as CB
+
+    batches = []
+    for v in versions:
+        wd = scratch.sub("b%d%d" % v)
+        tf, err = K.run_truth(v, "tables", {}, wd, "tables")
+        if tf is None:
+            continue
+        tables = K.read_jsonl(tf)[0]
+        rng = K.rng_for(rng_tag, "B", v)
+        items = []
+        for i in range(n_per_version):
+            code, desc = CB.make_code(rng, v, tables)
+            kind = "s" if v < (3, 0) else "B"
+            items.append({"pyc": os.path.join(wd, "syn%05d.pyc" % i), "tag": "synthetic-code/%s/%s" % (K.vstr(v), desc[:80]),
+                          "fields": {"co_code": [kind, binascii.hexlify(code).decode()], "co_stacksize": ["i", "10"]}})
+        for bi, chunk in enumerate(K.chunks(items, 60)):
+            batches.append({"v": v, "items": chunk, "mode": "mkcode", "truth_cmd": "mkcode", "workdir": wd, "tag": "syn%d" % bi})
+    return batches
